@@ -297,6 +297,26 @@ def step (st : St) (ws : List String) (_impl : String) : St × Ans :=
           let st1 := st1.setSpec b (specJoin (st1.specOf b) (act.map (fun e => (encKey b e.1 e.2, (0 : Int), st.clock))))
           (st1, st1.dumpAns b)
       | _, _ => (st, bad)
+  | ["inject", b, peer, conn, ch, add, del] =>
+      match b.toNat?, peer.toNat?, conn.toNat?, bytesOfHex ch, add.toInt?, del.toInt? with
+      | some b, some peer, some conn, some chb, some add, some del =>
+          match st.c.broker? b with
+          | some br =>
+              let m : Map := [(encKey peer conn (ssidOf st.contract chb), ⟨add, del, []⟩)]
+              let run (rev : Bool) : St × Ans :=
+                let r := mergeStep rev br m
+                let st1 := ({ st with c := st.c.setBroker r.broker }).addFlags b r.flags
+                let old := st1.specOf b
+                let d := specDelta old (timesOf m)
+                let st2 := st1.setSpec b (specJoin old (timesOf m))
+                let md := match r.delta with | some d => mapStr d | none => "nil"
+                (st2, st2.dumpAns b s!"delta={md} " s!"delta={if d.isEmpty then "nil" else entriesStr d} ")
+              let r := run false
+              if r.2.m == _impl then r else
+              let r' := run true
+              if r'.2.m == _impl then r' else r
+          | none => (st, bad)
+      | _, _, _, _, _, _ => (st, bad)
   | ["drain"] =>
       let r := st.drain false 0 200
       let m := s!"n={r.2} {r.1.allDumps}"
